@@ -225,3 +225,8 @@ def run(ck, prog, ctx):
                 n1 = params_of(pv.of_operand(b, t.args[2], (("f", "1", "tuple"),)), b.id)
                 ok = a0 == {1} and a1 == {2} and n0 == {1} and n1 == {2}
                 ck.ob("ROLE", "AnnotationDelta::%s/args" % nm, ok, "AnnotationDelta::%s passes (lhs terms, rhs terms, (lhs name, rhs name))%s" % (nm, "" if ok else " in another order: %s %s %s %s" % (sorted(a0), sorted(a1), sorted(n0), sorted(n1))), where=b.where(t.line))
+
+    # ---- accessors: a method named after a field returns that field, not a sibling of the same type
+    ck.rule("GETTER", "an accessor `f()` / `f_mut()` of a struct with a field `f` (or its documented alias) derives its result from that field (DESIGN 3.9)")
+    from engines import check_getters
+    check_getters(ck, "GETTER", prog, r"^src/ontology/comparison\.rs$", floor=8)
